@@ -1,11 +1,26 @@
+//! hsim — scenario generator, interpreter, oracles, minimiser and worker CLI.
+//!
+//!   hsim worker   <prop> <tier> <seed> <start> <count> <out.json>
+//!   hsim minimise <prop> <tier> <seed> <index> <rule> <out.json>
+//!   hsim replay   <file.json>
+//!   hsim show     <prop> <tier> <seed> <index>
+//!   hsim hashes   <prop> <tier> <seed> <start> <count>
+//!   hsim list
 mod actors;
+mod analysis;
+mod sgen;
 mod interp;
 mod log;
+mod minimise;
 mod model;
+mod props;
 
+use analysis::{View, Violation};
 use model::*;
+use serde::{Deserialize, Serialize};
+use std::collections::{BTreeMap, BTreeSet};
 
-fn main() {
+fn init() {
     actors::SPAWN_CHILD.set(interp::spawn_plain_addr).ok();
     futures_util::__verif_set_random_hook(simrt::select_random);
     let prev = std::panic::take_hook();
@@ -13,23 +28,322 @@ fn main() {
         if info.payload().is::<actors::InjectedPanic>() {
             return;
         }
+        if let Some(s) = info.payload().downcast_ref::<&str>() {
+            // the join-side panic of the async-std / smol stubs when a task failed
+            if *s == "task has failed" {
+                return;
+            }
+        }
         prev(info)
     }));
+}
 
-    let mut sc = Scenario::empty(1);
-    sc.actors.push(ActorSpec::default());
-    sc.clients.push(ClientSpec {
-        ops: vec![
-            Op::Spawn { spec: 0, slot: 0 },
-            Op::Send { h: 0, id: 1, work: vec![] },
-            Op::Call { h: 0, id: 2, work: vec![Work::Yield(2)] },
-            Op::Stop { h: 0 },
-            Op::Await { h: 0, on_clone: true },
-        ],
-    });
-    let out = interp::run_scenario(&sc);
-    for r in &out.log {
-        println!("{:?}", r);
+fn prop_salt(id: &str) -> u64 {
+    let mut h = 0xcbf2_9ce4_8422_2325u64;
+    for b in id.bytes() {
+        h ^= b as u64;
+        h = h.wrapping_mul(0x0000_0100_0000_01B3);
     }
-    println!("{:?} hash={:x}", out.outcome, out.hash);
+    h
+}
+
+pub fn run_seed(base: u64, prop: &str, index: u64) -> u64 {
+    simrt::mix(simrt::mix(base, prop_salt(prop)), index)
+}
+
+fn make_scenario(p: &props::PropDef, tier: &str, base: u64, index: u64) -> Scenario {
+    let mut g = sgen::G::new(run_seed(base, p.id, index), tier == "thorough");
+    (p.generate)(&mut g, index)
+}
+
+#[derive(Serialize, Deserialize)]
+struct ViolationOut {
+    index: u64,
+    run_seed: u64,
+    property: String,
+    rule: String,
+    signature: String,
+    detail: String,
+}
+
+#[derive(Serialize, Deserialize)]
+struct ReplayFile {
+    property: String,
+    tier: String,
+    base_seed: u64,
+    index: u64,
+    rule: String,
+    signature: String,
+    detail: String,
+    minimised: bool,
+    minimiser_runs: u64,
+    scenario: Scenario,
+    /// decision list of the failing run (task chosen per step; 4294967295 = clock jump)
+    decisions: Vec<u32>,
+    trace_hash: String,
+}
+
+fn fault_counts(v: &View, acc: &mut BTreeMap<String, u64>) {
+    let mut add = |k: &str, n: u64| {
+        if n > 0 {
+            *acc.entry(k.to_string()).or_insert(0) += n;
+        }
+    };
+    let st = &v.out.stats;
+    add("task_cancel_injected", st.cancels_injected);
+    add("task_cancel_by_handle_drop", st.cancels_by_drop);
+    add("panic_caught", st.panics_caught);
+    add("racing_clock_jump", st.racing_clock_jumps);
+    add("timer_fired_while_tasks_runnable", st.timers_fired_while_runnable);
+    add("spurious_poll", st.spurious_polls);
+    add("select_tie_break_draw", st.select_draws);
+    for r in &v.out.log {
+        match &r.ev {
+            log::Ev::FaultFired { what: 0, .. } => add("started_returns_err", 1),
+            log::Ev::FaultFired { what: 1, .. } => add("panic_in_callback", 1),
+            log::Ev::FaultFired { what: 2, .. } => add("panic_in_handler_work", 1),
+            log::Ev::OpEnd { res: log::Res::Abandoned, .. } => add("client_dropped_pending_op", 1),
+            _ => {}
+        }
+    }
+    for c in &v.cbs {
+        if c.exit.is_none() && c.cb.is_handler() && v.sc.spec_of(c.aidx).timeout.is_some() {
+            add("handler_abandoned_by_timeout_or_death", 1);
+        }
+    }
+}
+
+fn worker(args: &[String]) -> i32 {
+    let p = props::get(&args[0]).expect("unknown property");
+    let tier = args[1].as_str();
+    let base: u64 = args[2].parse().unwrap();
+    let start: u64 = args[3].parse().unwrap();
+    let count: u64 = args[4].parse().unwrap();
+    let outp = &args[5];
+    let t0 = std::time::Instant::now();
+    let mut sigs: BTreeSet<u64> = BTreeSet::new();
+    let mut hashes: BTreeSet<u64> = BTreeSet::new();
+    let mut violations: Vec<ViolationOut> = vec![];
+    let mut per_sig: BTreeMap<String, u32> = BTreeMap::new();
+    let mut faults: BTreeMap<String, u64> = BTreeMap::new();
+    let mut probes: BTreeMap<String, u64> = BTreeMap::new();
+    let mut policies: BTreeMap<String, u64> = BTreeMap::new();
+    let mut samples: Vec<serde_json::Value> = vec![];
+    let (mut steps, mut vtime, mut nontrivial, mut cap_hits, mut hung, mut events) = (0u64, 0u64, 0u64, 0u64, 0u64, 0u64);
+    let mut racing_runs = 0u64;
+    for index in start..start + count {
+        let sc = make_scenario(&p, tier, base, index);
+        let out = interp::run_scenario(&sc);
+        let v = View::new(&sc, &out);
+        analysis::coverage_probes(&v);
+        let vs = (p.check)(&v);
+        let nt = (p.nontrivial)(&v);
+        for (k, n) in out.probes.iter().chain(log::take_probes().iter()) {
+            *probes.entry(k.to_string()).or_insert(0) += n;
+        }
+        fault_counts(&v, &mut faults);
+        *policies.entry(format!("{:?}", sc.sched.policy).split([' ', '{']).next().unwrap().to_string()).or_insert(0) += 1;
+        if sc.sched.racing_per_mille > 0 {
+            racing_runs += 1;
+        }
+        steps += out.outcome.steps;
+        vtime += out.outcome.vtime_end;
+        events += out.log.len() as u64;
+        if out.outcome.cap_phase != 0 {
+            cap_hits += 1;
+        }
+        if out.outcome.hung {
+            hung += 1;
+        }
+        hashes.insert(out.hash);
+        if nt {
+            nontrivial += 1;
+            let sig = analysis::event_order_signature(&v);
+            if sigs.insert(sig) && samples.len() < 2 {
+                samples.push(serde_json::json!({
+                    "index": index,
+                    "run_seed": run_seed(base, p.id, index),
+                    "scenario": sc,
+                    "decisions": out.decisions,
+                    "steps": out.outcome.steps,
+                    "events": out.log.len(),
+                }));
+            }
+        }
+        for x in vs {
+            let n = per_sig.entry(x.signature.clone()).or_insert(0);
+            *n += 1;
+            if *n <= 3 {
+                violations.push(ViolationOut {
+                    index,
+                    run_seed: run_seed(base, p.id, index),
+                    property: x.property,
+                    rule: x.rule,
+                    signature: x.signature,
+                    detail: x.detail,
+                });
+            }
+        }
+    }
+    let res = serde_json::json!({
+        "prop": p.id, "tier": tier, "base_seed": base, "start": start, "count": count,
+        "evaluations": count,
+        "nontrivial_runs": nontrivial,
+        "nontrivial_sigs": sigs.iter().collect::<Vec<_>>(),
+        "trace_hashes": hashes.iter().collect::<Vec<_>>(),
+        "violations": violations,
+        "violation_counts": per_sig,
+        "faults": faults, "probes": probes, "policies": policies, "racing_clock_runs": racing_runs,
+        "steps": steps, "vtime_ns": vtime, "events": events, "cap_hits": cap_hits, "hung_runs": hung,
+        "samples": samples,
+        "wall_s": t0.elapsed().as_secs_f64(),
+    });
+    std::fs::write(outp, serde_json::to_vec(&res).unwrap()).unwrap();
+    0
+}
+
+fn check_scenario(p: &props::PropDef, sc: &Scenario) -> (Vec<Violation>, interp::RunOutput) {
+    let out = interp::run_scenario(sc);
+    let vs = {
+        let v = View::new(sc, &out);
+        (p.check)(&v)
+    };
+    (vs, out)
+}
+
+fn minimise_cmd(args: &[String]) -> i32 {
+    let p = props::get(&args[0]).expect("unknown property");
+    let tier = args[1].as_str();
+    let base: u64 = args[2].parse().unwrap();
+    let index: u64 = args[3].parse().unwrap();
+    let rule = args[4].clone();
+    let outp = &args[5];
+    let sc = make_scenario(&p, tier, base, index);
+    let (vs, _) = check_scenario(&p, &sc);
+    if !vs.iter().any(|v| v.rule == rule) {
+        eprintln!("minimise: run {index} does not reproduce rule {rule}");
+        return 2;
+    }
+    let mut m = minimise::Minimiser { prop: &p, rule: rule.clone(), runs: 0, budget: 3000 };
+    let small = m.minimise(&sc);
+    // two confirmation runs in this process; the driver replays once more in a fresh process
+    let (vs1, out1) = check_scenario(&p, &small);
+    let (vs2, out2) = check_scenario(&p, &small);
+    let Some(v1) = vs1.iter().find(|v| v.rule == rule) else {
+        eprintln!("minimise: minimised scenario does not reproduce");
+        return 2;
+    };
+    if out1.hash != out2.hash || !vs2.iter().any(|v| v.rule == rule) {
+        eprintln!("minimise: minimised scenario is not deterministic");
+        return 2;
+    }
+    let rf = ReplayFile {
+        property: p.id.to_string(),
+        tier: tier.to_string(),
+        base_seed: base,
+        index,
+        rule,
+        signature: v1.signature.clone(),
+        detail: v1.detail.clone(),
+        minimised: true,
+        minimiser_runs: m.runs,
+        scenario: small,
+        decisions: out1.decisions.clone(),
+        trace_hash: format!("{:016x}", out1.hash),
+    };
+    std::fs::write(outp, serde_json::to_vec_pretty(&rf).unwrap()).unwrap();
+    0
+}
+
+fn replay_cmd(args: &[String]) -> i32 {
+    let data = std::fs::read(&args[0]).expect("cannot read replay file");
+    let rf: ReplayFile = serde_json::from_slice(&data).expect("bad replay file");
+    let p = props::get(&rf.property).expect("unknown property");
+    let (vs, out) = check_scenario(&p, &rf.scenario);
+    let verbose = args.iter().any(|a| a == "-v");
+    if verbose {
+        for r in &out.log {
+            println!("{:>5} step={:<5} t={:<8} task={:<3} {:?}", r.st.seq, r.st.step, r.st.vtime, r.st.task as i32, r.ev);
+        }
+    }
+    let same_trace = format!("{:016x}", out.hash) == rf.trace_hash && out.decisions == rf.decisions;
+    println!("replay: property={} rule={} trace_identical={}", rf.property, rf.rule, same_trace);
+    let mut hit = false;
+    for v in &vs {
+        println!("  violated: {} :: {}", v.signature, v.detail);
+        if v.rule == rf.rule {
+            hit = true;
+        }
+    }
+    if hit {
+        println!("VIOLATION property={} replay={}", rf.property, args[0]);
+        1
+    } else {
+        println!("replay: the recorded violation did not occur on this tree");
+        0
+    }
+}
+
+fn show_cmd(args: &[String]) -> i32 {
+    let p = props::get(&args[0]).expect("unknown property");
+    let tier = args[1].as_str();
+    let base: u64 = args[2].parse().unwrap();
+    let index: u64 = args[3].parse().unwrap();
+    let sc = make_scenario(&p, tier, base, index);
+    println!("{}", serde_json::to_string_pretty(&sc).unwrap());
+    let (vs, out) = check_scenario(&p, &sc);
+    for r in &out.log {
+        println!("{:>5} step={:<5} t={:<8} task={:<3} {:?}", r.st.seq, r.st.step, r.st.vtime, r.st.task as i32, r.ev);
+    }
+    println!("{:?}", out.outcome);
+    println!("alive at end: {:?}", out.alive_at_end);
+    for v in vs {
+        println!("VIOLATED {} :: {}", v.signature, v.detail);
+    }
+    0
+}
+
+fn hashes_cmd(args: &[String]) -> i32 {
+    let p = props::get(&args[0]).expect("unknown property");
+    let tier = args[1].as_str();
+    let base: u64 = args[2].parse().unwrap();
+    let start: u64 = args[3].parse().unwrap();
+    let count: u64 = args[4].parse().unwrap();
+    for index in start..start + count {
+        let sc = make_scenario(&p, tier, base, index);
+        let out = interp::run_scenario(&sc);
+        println!("{} {:016x} {}", index, out.hash, out.outcome.steps);
+    }
+    0
+}
+
+fn main() {
+    init();
+    let args: Vec<String> = std::env::args().skip(1).collect();
+    if args.is_empty() {
+        eprintln!("usage: hsim worker|minimise|replay|show|hashes|list ...");
+        std::process::exit(2);
+    }
+    let rest = &args[1..];
+    let code = match args[0].as_str() {
+        "worker" => worker(rest),
+        "minimise" => minimise_cmd(rest),
+        "replay" => replay_cmd(rest),
+        "show" => show_cmd(rest),
+        "hashes" => hashes_cmd(rest),
+        "list" => {
+            for p in props::all() {
+                println!(
+                    "{}",
+                    serde_json::json!({"id": p.id, "level": p.level, "rule": p.rule, "needed_probes": p.needed_probes, "quick_runs": p.quick_runs, "thorough_runs": p.thorough_runs})
+                );
+            }
+            0
+        }
+        _ => {
+            eprintln!("unknown command");
+            2
+        }
+    };
+    std::process::exit(code);
 }
